@@ -729,6 +729,13 @@ class Interp:
             if lo < 0:
                 raise Unencodable("signed shr")
             return a / (2 ** k)
+        if name == "BitAnd" and lo == 0:
+            for x_, y_ in ((a, b), (b, a)):
+                sy = z3.simplify(y_) if z3.is_expr(y_) else y_
+                if z3.is_expr(sy) and z3.is_int_value(sy):
+                    mval = sy.as_long()
+                    if mval >= 0 and (mval + 1) & mval == 0:  # mask 2^k - 1
+                        return x_ % (mval + 1)
         if name in ("BitAnd", "BitOr", "BitXor"):
             bits = (hi - lo + 1).bit_length() - 1
             if lo < 0:
